@@ -621,6 +621,10 @@ impl<'a> Driver<'a> {
                     // half of the time let the call that needs it fail first
                     if self.rng.chance(1, 2) {
                         step!(self, Op::SetPsk { node: n as u8, idx, kind: PskKind::Configured });
+                    } else if self.rng.chance(1, 3) {
+                        // a refused set_psk (wrong length) must leave the slot empty
+                        let l = *self.rng.pick(&[0u8, 1, 31, 33, 64]);
+                        step!(self, Op::SetPsk { node: n as u8, idx, kind: PskKind::BadLen(l) });
                     }
                 }
             }
